@@ -664,9 +664,19 @@ class Store:
 
         # If emit is set on a branch node, set the entire branch to the
         # emit value.
+        late_emit = None
         if '_emit' in config and self.inner:
             emit_value = config.pop('_emit')
             self._apply_emit(emit_value)
+        elif '_emit' in config and not self.leaf and self.value is None \
+                and not (self.schema_keys - {'_emit'}) & set(config) \
+                and (self.subschema or self.glob_declared or any(
+                    not str(key).startswith('_') for key in config)):
+            # A branch that has no children yet (an agents store before
+            # the first agent, a branch this very config creates): the
+            # flag is for the leaves below, it does not make the node a
+            # variable.
+            late_emit = (config.pop('_emit'), dict(config))
 
         if self.schema_keys & set(config.keys()):
             # We are at a leaf node, so apply its config.
@@ -749,6 +759,9 @@ class Store:
                     self.inner[key] = Store(child, outer=self, source=source)
                 else:
                     self.inner[key]._apply_config(child, source=source)
+
+        if late_emit is not None:
+            self._apply_emit_where_unsaid(*late_emit)
 
         if self.topology and not isinstance(self.value, Process):
             raise ValueError(
@@ -1139,6 +1152,19 @@ class Store:
         if self.inner:
             for child in self.inner.values():
                 child._apply_emit(emit)
+        elif not self.emit_pinned:
+            self.emit = emit
+
+    def _apply_emit_where_unsaid(self, emit, config):
+        """Give the leaves below the emit flag of the enclosing branch,
+        except where ``config`` sets a flag of its own."""
+        if isinstance(config, dict) and '_emit' in config:
+            return
+        if self.inner:
+            for key, child in self.inner.items():
+                child._apply_emit_where_unsaid(
+                    emit,
+                    config.get(key, {}) if isinstance(config, dict) else {})
         elif not self.emit_pinned:
             self.emit = emit
 
